@@ -22,9 +22,9 @@ Proof. exact quiescent_nodes_hold_the_fold. Qed.
 Print Assumptions C07_quiescent_nodes_hold_the_fold.
 
 (* a proposal accepted in idle, then ANY list of inputs: if a set H of at least t participants is
-   honest (nothing speaks for them except well-formed answers to this batch; their late answers to
-   other batches, the other participants' failures, duplicates, further proposals, junk may all be
-   interleaved) and each of them answers, the node collects the batch *)
+   honest (nothing speaks for them except well-formed answers to this batch; their late answers AND
+   late failure reports to other batches, the other participants' failures, duplicates, further
+   proposals, junk may all be interleaved) and each of them answers, the node collects the batch *)
 Theorem C07_proposed_batch_collects :
   forall now p d t H batch pid created tasks src (l : list input),
   Ready p d t -> 0 < t -> t <= Z.of_nat (length (dc_quorum d)) ->
@@ -72,13 +72,23 @@ Theorem C07_init_not_expired :
   exists g, p_sgn p' = Some g /\ expired (gc_expires g) (gc_updated g) = false.
 Proof. exact init_not_expired. Qed.
 
-(* the second sentence of the property for an ERROR answer is refuted (open finding
-   `late-error-answer-booked-on-current-batch`): the error request names no batch, so a slow honest
-   participant's error answer to a finished batch is booked on the batch being signed; t correct
-   answers to that batch then collect nothing, while the same answers without the stray error
-   answer collect it *)
-Theorem C07_late_error_answer_refuted :
-  collected 1000 (mkd st_idle ex_ready) [ex_start41; (ev_sgn_error, RSigError 2 (Some 9%N) 96); ex_good 41%N 2; ex_good 41%N 0] = [] /\
+(* the second sentence of the property for a FAILURE report (repaired by ffa0973: the report now names
+   its batch): a report that names a batch other than the one being signed is refused, nothing is
+   persisted - so `honest_only` above allows the honest participants' late failure reports for OTHER
+   batches to be interleaved, like their late answers *)
+Theorem C07_stale_failure_report_refused :
+  forall now p g b b' pid e created, Aw p g b -> b' <> 0%N -> b' <> b ->
+  round_step now (mkd st_await p) ev_sgn_error (RSigError pid e created b') = SRej.
+Proof. exact stale_failure_report_refused. Qed.
+Print Assumptions C07_stale_failure_report_refused.
+
+(* what is left of the former finding `late-error-answer-booked-on-current-batch`: a report written by
+   an OLDER version names no batch (0 here) and is judged as before - booked on the batch being signed;
+   t correct answers to that batch then collect nothing.  The same report naming its batch (40) is
+   refused and the batch is collected, as it is without any report *)
+Theorem C07_late_failure_report_examples :
+  collected 1000 (mkd st_idle ex_ready) [ex_start41; (ev_sgn_error, RSigError 2 (Some 9%N) 96 0%N); ex_good 41%N 2; ex_good 41%N 0] = [] /\
+  collected 1000 (mkd st_idle ex_ready) [ex_start41; (ev_sgn_error, RSigError 2 (Some 9%N) 96 40%N); ex_good 41%N 2; ex_good 41%N 0] = [41%N] /\
   collected 1000 (mkd st_idle ex_ready) [ex_start41; ex_good 41%N 2; ex_good 41%N 0] = [41%N].
 Proof. exact late_error_answer_blocks_the_batch. Qed.
 
